@@ -47,6 +47,21 @@ DESC = {
  "C13-R2": ("C13", "scan() takes its stream and token buffer from a sync.Pool and puts them back on return while parse() still reads the tokens; only buffers of >= 17 tokens are pooled", "concurrent calls after an expression of 17+ tokens, one goroutine descheduled between scan's return and the end of parse"),
  "C14-R2": ("C14", "operands() flattening passes the accumulator down AND appends the returned slice for a parenthesised same-operator left operand", "20+ parenthesised groups joined by the operator used inside them: the operand list doubles per group"),
  "C15-R2": ("C15", "last-resort branch accepts X-or-later for deprecated-only ids and rewrites the buffer without adding to the removed-byte count", "a prefix spelling -or-later on a deprecated id without a listed -or-later form (eCos-2.0-or-later), followed by an unknown or missing id"),
+ "C01-R3": ("C01", "Satisfies passes the de-duplicated allowed list through removeCovered(), which prunes entries 'covered' by a '+' entry of the same family; it records the earliest '+' version without skipping '+' entries that carry a WITH exception", "an allowed list holding a '+'/-or-later entry WITH an exception plus an exception-less entry of the same family at the same or a later version; the expression needs the second entry"),
+ "C02-R3": ("C02", "normalizeLicense consumes a trailing '+' up front with exp.read(\"+\") instead of peeking; when no -or-later form is listed the '+' is swallowed", "a deprecated id without an -or-later form that sits in a version family, followed by '+': only bzip2-1.0.5+"),
+ "C03-R3": ("C03", "identifierInRange calls a new compareGE that skips the sameLicenseGroup check (which doubled as the nil guard) when both ids are identical", "the same id on both sides, no version range for it (MIT, ISC, ...), exactly one side with '+': nil dereference in Satisfies"),
+ "C04-R3": ("C04", "ids are found through lazily built indexes bucketed by the case-folded first letter; ids that start with a digit are silently dropped when the buckets are filled", "0BSD, 3D-Slicer-1.0 or 389-exception anywhere: rejected as unknown by all three entry points"),
+ "C05-R3": ("C05", "the -only branch strips the suffix with strings.TrimRight(license, \"-only\") (a cutset trim) instead of slicing off 5 bytes", "the synthesised -only form of an id whose last character is o, n, l, y or '-' (Ruby-only, curl-only: 36 of 638 ids)"),
+ "C06-R3": ("C06", "ExtractLicenses fast path: an input that exactly matches an active id is returned verbatim without parsing", "the expression is exactly one bare, exactly-cased listed -or-later id: GPL-2.0-or-later instead of the canonical GPL-2.0-or-later+ that every other spelling gives"),
+ "C07-R3": ("C07", "Satisfies builds a lookup index when the allowed list has 8 or more entries: exact strings plus a fallback that only considers entries belonging to a version range", "a list of at least 8 entries and '+' on an unversioned id (MIT+ vs listed MIT): satisfied flips to not satisfied once the list reaches 8 entries"),
+ "C08-R3": ("C08", "readLicense rejects any scanned id longer than the longest listed id, before the -only/-or-later suffix is stripped", "X-or-later for an active id of 28+ characters or X-only for 32+ characters (26 / 8 ids)"),
+ "C09-R3": ("C09", "fast path in stringsToNodes for plain ids sets hasPlus from HasSuffix(caller's text, \"-or-later\")", "an allowed entry that is a listed -or-later id with the suffix in upper or mixed case, and an expression license that matches only through the version range"),
+ "C10-R3": ("C10", "isSatisfiedBy carries a nesting counter (every recursive step, not per parenthesis level) and returns false beyond 32", "a chain or left nesting of 34+ operands: a flat 34-operand AND with every term allowed is false, the same operands grouped in balanced halves are true"),
+ "C11-R3": ("C11", "sortAndDedup compares neighbouring entries field by field through a helper that ignores hasPlus: X+ is a duplicate of X and is overwritten", "an allowed list containing both X and X+ plus at least one entry that sorts after them: X+ no longer reaches later versions"),
+ "C12-R3": ("C12", "parseLicense handles 'optional +, then optional WITH' as one switch on the next operator: after a '+' token a WITH clause is never parsed", "<license>+ WITH <exception> where '+' reaches the parser as its own token (Apache-2.0+ WITH e): all 72 exception ids rejected in that position"),
+ "C13-R3": ("C13", "ValidateLicenses validates lists of more than 64 entries in parallel and appends each part's invalid entries under a mutex in goroutine completion order", "a list of more than 64 entries, more than one CPU, invalid entries in at least two parts: the order of the returned invalid licenses differs between identical calls"),
+ "C14-R3": ("C14", "before each rewrite of an unlisted X-or-later the scanner first scans the whole rest of the expression (look-ahead), again at every later rewrite", "an expression with many unlisted -or-later ids: time and allocation double per rewritten id (16 terms, 267 bytes: 1.5 GB)"),
+ "C15-R3": ("C15", "stringsToNodes de-duplicates the entries as strings after trimming blanks and parses the trimmed text", "an unknown or missing id in an allowed entry that starts with spaces: the offset is relative to the trimmed text"),
  "C15-B": ("C15", "one expressionStream is reused for the whole allowed list; re-pointing it does not reset the removed-byte count", "Satisfies with an allowed list in which an unlisted -or-later entry comes before the bad entry: the reported offset lies outside the bad entry"),
 }
 def matrix(path):
@@ -63,6 +78,9 @@ base = matrix(os.path.join(ROOT, 'seeded', 'RESULTS-baseline.md'))
 R2BASE = {"C01-R2": ["C01", "C07"], "C02-R2": [], "C03-R2": ["C03"], "C04-R2": [], "C05-R2": [], "C06-R2": [], "C07-R2": [], "C08-R2": ["C13"], "C09-R2": [],
           "C10-R2": ["C06"], "C11-R2": ["C11"], "C12-R2": ["C13"], "C13-R2": [], "C14-R2": ["C14"], "C15-R2": []}
 base.update(R2BASE)
+R3BASE = {"C01-R3": ["C01"], "C02-R3": ["C02"], "C03-R3": ["C03"], "C04-R3": ["C12"], "C05-R3": ["C08"], "C06-R3": ["C09"], "C07-R3": [], "C08-R3": ["C08"],
+          "C09-R3": ["C09", "C07"], "C10-R3": [], "C11-R3": [], "C12-R3": ["C05"], "C13-R3": [], "C14-R3": ["C14"], "C15-R3": []}
+base.update(R3BASE)
 final = matrix(os.path.join(ROOT, 'seeded', 'RESULTS.md'))
 for name, (prop, what, needs) in DESC.items():
     d = os.path.join(ROOT, 'seeded', name)
@@ -74,7 +92,7 @@ for name, (prop, what, needs) in DESC.items():
       "confirmed_by_me": "in the scratch worktree: git apply patch.diff; go build ./...; go vet ./spdxexp/...; go test -count=1 ./spdxexp/... ./cmd/... all pass; the demonstration fails with the patch and passes on the clean checkout (verify.sh, both directions)",
       "round": 3 if name.endswith("-R3") else 2 if name.endswith("-R2") else 1,
       "detected_by_quick_checks_before_strengthening": base.get(name),
-      "note_on_baseline": ("round 2: targeted runs only (own property's check and related ones), see RESULTS-R2-baseline.md" if name.endswith("-R2") else "all 15 quick checks, see RESULTS-baseline.md"),
+      "note_on_baseline": ("round 3: targeted runs only, see RESULTS-R3-baseline.md" if name.endswith("-R3") else "round 2: targeted runs only (own property's check and related ones), see RESULTS-R2-baseline.md" if name.endswith("-R2") else "all 15 quick checks, see RESULTS-baseline.md"),
       "detected_by_quick_checks": final.get(name),
       "how_run": "tools/matrix.sh (patch applied to a scratch worktree of /repo, every quick check run against it with VERIF_REPO; /repo untouched)",
     }
